@@ -693,6 +693,16 @@ def sort_by_key(eng, st, v, key, reverse):
     if key is not None and not isinstance(key, VLambda):
         raise Unsupported("sort(key=<not a lambda>)")
 
+    if key is None and isinstance(v.elem, REF) and not getattr(eng, "concrete", False):
+        # objects ordered by their own __lt__ (e.g. a NamedTuple / dataclass(order=True)): the result is SOME permutation of the list (its order is not modelled)
+        i = z3.Int(fresh_name("i"))
+        r = VList(v.elem, z3.Array(fresh_name("sorted.arr"), z3.IntSort(), v.elem.z3sort()), v.len, v.is_str)
+        p = z3.Function(fresh_name("perm"), z3.IntSort(), z3.IntSort())
+        q = z3.Function(fresh_name("iperm"), z3.IntSort(), z3.IntSort())
+        st.assume(forall_pat([i], z3.Implies(z3.And(0 <= i, i < r.len), z3.And(0 <= p(i), p(i) < r.len, q(p(i)) == i, r.arr[i] == v.arr[p(i)])), [p(i), r.arr[i]]))
+        st.assume(forall_pat([i], z3.Implies(z3.And(0 <= i, i < r.len), z3.And(0 <= q(i), q(i) < r.len, p(q(i)) == i)), [q(i), v.arr[i]]))
+        return r
+
     def keyof(e):
         val = from_z3(e, v.elem)
         k = eng.apply_lambda(key, [val], st) if key is not None else val
